@@ -136,7 +136,55 @@ def judge_real(exp, kind, want, want2, got, check_kind):
     return f"unexpected expectation {exp}"
 
 
+# ------------------------------------------------------------------ float literals with long digit strings (MechLiteral + MechFloat)
+def long_float_family(rep, tier, seed):
+    """decimal float spellings of 15..22 significant digits: the denotation is MechLiteral's (digits / 10^#fraction digits, the same
+    Horner fold, here over unbounded integers); "floats to the nearest representable value" is MechFloat.RoundA at binary64
+    (lib/ieee.py, validated against TLC's cases in C01). Above 2^53 the digit string itself is not representable, so any
+    evaluation that goes through an intermediate integer / float conversion rounds twice."""
+    import random, ieee
+    rnd = random.Random(seed * 7 + 13)
+    special = ["9999999999999999999999", "2718281828459045235360", "3141592653589793238462", "9007199254740993000000", "1000000000000000000001",
+               "1234567890123456789012", "5000000000000000000000", "4503599627370497500000", "1797693134862315708145", "2225073858507201383090"]
+    cases = []
+    for D in range(15, 23):
+        pool = [x[:D] for x in special] + ["".join(rnd.choice("0123456789") for _ in range(D)) for _ in range(6 if tier == "quick" else 40)]
+        pool = [("1" + x[1:]) if x[0] == "0" else x for x in pool]
+        for digs in pool:
+            for p in sorted({0, 1, 2, D // 2, D - 1}):
+                w, f = digs[:p], digs[p:]
+                if not f: continue
+                for variant in ("plain", "neg", "ann", "us"):
+                    body = (w if w else ("" if variant != "us" else "0")) + "." + f
+                    if variant == "us" and len(w) > 3: body = w[:-3] + "_" + w[-3:] + "." + f
+                    text = {"plain": body, "neg": "-" + body, "ann": body + "<f64>", "us": body}[variant]
+                    q = Fraction(int(digs), 10 ** len(f))
+                    cases.append((D, "leading-dot" if not w and variant != "us" else variant, text, -q if variant == "neg" else q))
+    reqs = [{"id": i, "mode": "session", "stmts": [c[2]], "opts": {}} for i, c in enumerate(cases)]
+    outs = execpool.run_requests(reqs, nworkers=16, timeout=120)
+    ok_n = 0
+    for (D, variant, text, q), (resp, oc) in zip(cases, outs):
+        sig = f"C13/flt/long/{variant}"
+        replay = {"stmts": [text], "denotes": str(q)}
+        if oc != "ok" or "steps" not in (resp or {}):
+            rep.fail(sig + "/host-" + oc, f"`{text}` -> interpreter process {oc}", replay); continue
+        ev = resp["steps"][0]
+        if not (ev.get("p") == "ok" and ev.get("shape") and ev["shape"][0].startswith("MechCode")):
+            rep.fail(sig + "/noparse", f"`{text}` is not read as code ({ev.get('p')} {ev.get('shape')})", replay); continue
+        if ev.get("r") != "ok":
+            rep.fail(sig + "/rejected", f"`{text}` is rejected ({ev.get('class')}) but denotes {q}", replay); continue
+        got = absval.absval(ev["v"])
+        want = ieee.round_a(ieee.BINARY64, q)
+        if got != ('num', 'f64', want):
+            far = got[0] != 'num' or abs(got[2] - q) / abs(q) >= Fraction(1, 2 ** 44)
+            rep.fail(sig + ("/wrong-value" if far else "/misrounded"), f"`{text}` = {absval.short(got)} ({float(got[2])!r}), the nearest f64 to the {D}-digit spelling is {float(want)!r}" if got[0] == 'num' else f"`{text}` = {absval.short(got)}", replay)
+        else: ok_n += 1
+    log(f"[C13] long float literals: {ok_n}/{len(cases)} evaluate to the nearest f64 of their 15..22-digit spelling")
+    rep.cov.update({"long_float_literals": len(cases), "long_float_literals_nearest": ok_n})
+    return len(cases)
+
 def run(rep, tier, seed):
+    nlong = long_float_family(rep, tier, seed)
     cfg = "MC_C13_quick.cfg" if tier == "quick" else "MC_C13_thorough.cfg"
     t = tlc.run("MC_C13", cfg, workers=16, timeout=3000, xss="64m")
     if t.violations or not t.ok:
@@ -200,7 +248,7 @@ def run(rep, tier, seed):
         else:
             tally[{"exact": "exact_ok", "nearest": "nearest_ok", "clamp": "clamp_ok", "nearint": "nearint_ok"}[exp]] += 1
     rep.cov.update({"states": t.generated, "transitions": max(t.generated - 1, 1), "distinct_states": t.distinct,
-                    "traces_validated_against_impl": len(reqs), "cases_emitted": len(cases), "cases_replayed": len(reqs),
+                    "traces_validated_against_impl": len(reqs) + nlong, "cases_emitted": len(cases), "cases_replayed": len(reqs),
                     "distinct_spellings": len(texts), "by_form": dict(forms),
                     "exact_matched": tally["exact_ok"], "nearest_float_matched": tally["nearest_ok"],
                     "clamped_as_documented": tally["clamp_ok"], "fraction_to_adjacent_integer": tally["nearint_ok"],
